@@ -1245,28 +1245,28 @@ fn copy_prop_reverse(
         }
     }
 
-    // Take a transitive closure of src_to_dst.
+    // Take a transitive closure of src_to_dst: follow every chain to its final destination.
+    // A chain that revisits a symbol (a self copy `v = v`, or a longer cycle, possibly reached
+    // from a symbol outside of it) cannot be optimized.
     {
-        let mut changed = true;
-        let mut cycle_detected = false;
-        while changed {
-            changed = false;
-            src_to_dst.clone().iter().for_each(|(src, dst)| {
-                if let Some(next_dst) = src_to_dst.get(dst) {
-                    // Cycle detection
-                    if *next_dst == *src {
-                        cycle_detected = true;
-                        return;
-                    }
-                    src_to_dst.insert(*src, *next_dst);
-                    changed = true;
+        let mut closure: FxHashMap<Symbol, Symbol> = FxHashMap::default();
+        for (src, dst) in src_to_dst.iter() {
+            let mut seen: FxHashSet<Symbol> = FxHashSet::default();
+            seen.insert(*src);
+            let mut last = *dst;
+            loop {
+                if !seen.insert(last) {
+                    // We cannot optimize in presence of cycles.
+                    return Ok(modified);
                 }
-            });
+                match src_to_dst.get(&last) {
+                    Some(next_dst) => last = *next_dst,
+                    None => break,
+                }
+            }
+            closure.insert(*src, last);
         }
-        if cycle_detected {
-            // We cannot optimize in presence of cycles.
-            return Ok(modified);
-        }
+        src_to_dst = closure;
     }
 
     // Gather the get_local instructions that need to be replaced.
